@@ -337,7 +337,7 @@ def history_template(rnd):
 
 class C19(Prop):
     id = 'C19'
-    quick_cases = 600
+    quick_cases = 1000
     thorough_cases = 8000
     rule = ('random charts (code inside the modelled subset, no eventless loops) × feature files of 4–6 scenarios × 4–10 '
             'steps written in the documented spelling of the predefined steps (send with and without parameter, wait, '
@@ -372,6 +372,8 @@ class C19(Prop):
     def gen_case(self, rnd, tier):
         kn = gen.Knobs(p_eventless=0.0, contracts=0.0, sends=0.45, max_states=rnd.choice([4, 7, 10]),
                        time_preds=0.15, p_final=0.3, send_names=('out', 'o2'))
+        if rnd.random() < 0.3:
+            kn.subnames = 0.4       # state names that contain other state names
         if rnd.random() < 0.35:
             # history states that are left and come back to within one scenario
             kn.p_history, kn.history_focus, kn.max_states, kn.p_guard = 0.9, 0.9, rnd.choice([7, 10, 13]), 0.2
